@@ -1984,7 +1984,16 @@ class unyt_array(np.ndarray):
                             "cannot be multiplied, divided, subtracted or "
                             "added with data that has different units."
                         )
-                    inp1 = np.asarray(inp1, dtype=new_dtype) * conv
+                    if (
+                        unit_operator is _preserve_units
+                        and u0.base_offset == 0.0
+                        and u1.base_offset != 0.0
+                    ):
+                        # difference + point: the result carries the unit of the
+                        # point (see _preserve_units), rescale the difference
+                        inp0 = np.asarray(inp0) * (u0.base_value / u1.base_value)
+                    else:
+                        inp1 = np.asarray(inp1, dtype=new_dtype) * conv
             # get the unit of the result
             mul, unit = unit_operator(u0, u1)
             if unit_operator in (_multiply_units, _divide_units):
